@@ -37,6 +37,48 @@ def RS.run (s : RS) : List (Nat × Nat) → RS
   | [] => s
   | (w, g) :: rest => ((s.readStep w g).1).run rest
 
+/-- what a handler can do with the streamed body: read from it, or drop the stream (Request.Body() hitting an error,
+    ResetBody, SetBody ... all end in Request.closeBodyStream, which releases the requestStream) -/
+inductive HAct
+  | read (want got : Nat)
+  | drop
+  deriving DecidableEq, Repr
+
+/-- the request's stream as the server sees it after the handler: still attached to ctx.Request or not, and
+    Request.bodyStreamUnread (set by closeBodyStream when the dropped stream was unread) -/
+structure HS where
+  rs : RS
+  attached : Bool := true
+  droppedUnread : Bool := false
+  deriving DecidableEq, Repr
+
+def HS.readA (s : HS) (w g : Nat) : HS := if s.attached then { s with rs := (s.rs.readStep w g).1 } else s
+def HS.dropA (s : HS) : HS :=
+  if s.attached then { s with attached := false, droppedUnread := s.droppedUnread || s.rs.unread } else s
+
+def HS.step (s : HS) : HAct → HS
+  | .read w g => s.readA w g
+  | .drop => s.dropA
+
+def HS.run (s : HS) : List HAct → HS
+  | [] => s
+  | a :: rest => (s.step a).run rest
+
+/-- io.ReadFull(stream, buf[:n]) / io.ReadAll as sequences of Read calls (the connection delivers everything asked for):
+    used by the correspondence check to replay what the scripted handler did -/
+def readFullActs : Nat → RS → Nat → List HAct
+  | 0, _, _ => []
+  | fuel + 1, s, remaining =>
+    if remaining = 0 then []
+    else
+      let r := s.readStep remaining remaining
+      if r.2 = 0 then [.read remaining remaining]
+      else .read remaining remaining :: readFullActs fuel r.1 (remaining - r.2)
+
+/-- server.go after the handler: the connection may be reused only if neither an attached stream is unread nor an
+    unread stream was dropped -/
+def HS.keep (s : HS) : Bool := !((s.attached && s.rs.unread) || s.droppedUnread)
+
 /-- how the Expect: 100-continue handlers leave the loop -/
 inductive ExpectOutcome
   | noExpect            -- request did not ask, or no handler configured and the body is read
